@@ -888,6 +888,71 @@ struct Pair {
 trait Val: Copy + Clone + PartialEq + PartialOrd + std::fmt::Debug {
     fn make(r: u64) -> Self;
     fn key(&self) -> u64;
+    /// "exactly the value written": for floats the bit pattern (-0.0 is not 0.0, a NaN is itself)
+    fn same(&self, o: &Self) -> bool {
+        self == o
+    }
+}
+fn same_opt<T: Val>(a: Option<T>, b: Option<T>) -> bool {
+    match (a, b) {
+        (Some(x), Some(y)) => x.same(&y),
+        (None, None) => true,
+        _ => false,
+    }
+}
+/// float payloads (scores are often stored as floats): values whose `==` is not identity
+fn special_f64(r: u64) -> f64 {
+    match r % 10 {
+        0 | 1 => -0.0,
+        2 => 0.0,
+        3 => f64::NAN,
+        4 => f64::INFINITY,
+        5 => -1.5,
+        6 => f64::MIN_POSITIVE / 2.0,
+        _ => f64::from_bits(r),
+    }
+}
+impl Val for f64 {
+    fn make(r: u64) -> f64 {
+        special_f64(r)
+    }
+    fn key(&self) -> u64 {
+        self.to_bits()
+    }
+    fn same(&self, o: &f64) -> bool {
+        self.to_bits() == o.to_bits()
+    }
+}
+impl Val for f32 {
+    fn make(r: u64) -> f32 {
+        match r % 10 {
+            7 | 8 | 9 => f32::from_bits((r >> 8) as u32),
+            _ => special_f64(r) as f32,
+        }
+    }
+    fn key(&self) -> u64 {
+        self.to_bits() as u64
+    }
+    fn same(&self, o: &f32) -> bool {
+        self.to_bits() == o.to_bits()
+    }
+}
+/// a float next to an integer, as in (score, depth)
+#[derive(Copy, Clone, PartialEq, PartialOrd, Debug)]
+struct Scored {
+    score: f32,
+    depth: i32,
+}
+impl Val for Scored {
+    fn make(r: u64) -> Scored {
+        Scored { score: <f32 as Val>::make(r), depth: if r % 3 == 0 { 0 } else { (r >> 40) as i32 } }
+    }
+    fn key(&self) -> u64 {
+        self.score.to_bits() as u64 ^ (self.depth as u64) << 32
+    }
+    fn same(&self, o: &Scored) -> bool {
+        self.score.to_bits() == o.score.to_bits() && self.depth == o.depth
+    }
 }
 impl Val for u64 {
     fn make(r: u64) -> u64 {
@@ -997,14 +1062,14 @@ fn c19_sequence<T: Val>(size: usize, nops: usize, rng: &mut Rng, rep: &mut Repor
             rep.count("ev_first_touch_of_untouched_slot");
             table.replace_if(h, v, |x| {
                 seen.set(Some(x));
-                x == default
+                x.same(&default)
             });
-            if seen.get() != Some(default) {
+            if !same_opt(seen.get(), Some(default)) {
                 rep.violation(&format!("C19/fresh-slot/predicate-sees-non-default/{}", tname), format!("size={} slot={} predicate saw {:?}, default is {:?}", size, slot, seen.get(), default));
             }
             model[slot as usize] = (h, v);
             rep.count("op_get");
-            if table.get(h) != Some(v) {
+            if !same_opt(table.get(h), Some(v)) {
                 rep.violation(&format!("C19/fresh-slot/conditional-write-lost/{}", tname), format!("size={} slot={} hash={:x}", size, slot, h));
             }
             pool.push(h);
@@ -1052,7 +1117,7 @@ fn c19_sequence<T: Val>(size: usize, nops: usize, rng: &mut Rng, rep: &mut Repor
                     rep.count("info_predicate_calls_not_1");
                 }
                 if let Some(s) = seen.get() {
-                    if s != cur {
+                    if !s.same(&cur) {
                         rep.violation(&format!("C19/replace_if/predicate-argument/{}", tname), format!("size={} step={} hash={:x}: predicate saw {:?}, slot holds {:?}", size, step, h, s, cur));
                     }
                 } else if mode == 2 || mode == 0 {
@@ -1073,11 +1138,11 @@ fn c19_sequence<T: Val>(size: usize, nops: usize, rng: &mut Rng, rep: &mut Repor
             let qs = (*q % size as u64) as usize;
             let want = if model[qs].0 == *q { Some(model[qs].1) } else { None };
             rep.count("op_get");
-            if model[qs].0 != *q && model[qs].0 % size as u64 == *q % size as u64 && (model[qs].0 != 0 || model[qs].1 != default) {
+            if model[qs].0 != *q && model[qs].0 % size as u64 == *q % size as u64 && (model[qs].0 != 0 || !model[qs].1.same(&default)) {
                 rep.count("ev_lookup_colliding_slot");
             }
             let got = table.get(*q);
-            if got != want {
+            if !same_opt(got, want) {
                 let sig = match (got.is_some(), want.is_some()) {
                     (true, false) => "returned-value-stored-under-other-hash",
                     (false, true) => "lost-value",
@@ -1194,7 +1259,10 @@ pub fn run_c19(ctx: &Ctx, rep: &mut Report) {
         let k = (gid % (max_log2 as u64 + 1)) as u32;
         let size = 1usize << k;
         let nops = if miri { 60 } else if size > 1 << 18 { 400 } else { 3000 };
-        match gid % 5 {
+        match gid % 8 {
+            5 => c19_sequence::<f64>(size, nops, rng, rep, "f64"),
+            6 => c19_sequence::<f32>(size, nops, rng, rep, "f32"),
+            7 => c19_sequence::<Scored>(size, nops, rng, rep, "scored"),
             0 => c19_sequence::<u64>(size, nops, rng, rep, "u64"),
             1 => c19_sequence::<Pair>(size, nops, rng, rep, "pair"),
             2 => c19_sequence::<Wide>(size, nops, rng, rep, "wide"),
@@ -1202,7 +1270,7 @@ pub fn run_c19(ctx: &Ctx, rep: &mut Report) {
             _ => c19_sequence::<char>(size, nops, rng, rep, "char"),
         }
         if gid < 2 {
-            rep.sample(format!("size 2^{}: {} random add/replace_if/get ops over a pool of colliding hashes, value type #{}", k, nops, gid % 5));
+            rep.sample(format!("size 2^{}: {} random add/replace_if/get ops over a pool of colliding hashes, value type #{}", k, nops, gid % 8));
         }
     });
 }
